@@ -248,7 +248,18 @@ pub fn record_nested(world: &mut World, command: SystemCommand, setup: SystemCom
     }
     // the nested run itself, reduced to its visible trace: the system's mark (recorded calls only ever target A = 1)
     world.resource_mut::<Log>().push(100);
+    // a replayed run may itself send a command to a system that is still executing further up (B): it lands in the live buffer
+    unsafe
+    {
+        if NESTED_POSTPONES_FOR != 0x5EED_0D00
+        {
+            let b = SystemCommand(Entity::m_new((NESTED_POSTPONES_FOR - 0x5EED_0D01) as u32, 1));
+            buffer_push(world, b, 1);
+        }
+    }
 }
+/// entity index (+1, relative to the base) of a busy system for which every recorded nested run postpones one more command
+pub static mut NESTED_POSTPONES_FOR: usize = 0x5EED_0D00;
 
 macro_rules! runner_top_harness {
     ($name:ident, $unwind:literal, $body:block) => {
@@ -371,3 +382,94 @@ runner_harness!(runner_nested_inline, 4, {
     kani::cover!(true, "end of harness reached");
     std::mem::forget(world);
 });
+
+/// S4b (C02/C11/C12): as S4 with K = 2, and every replayed run postpones one more command for the still-executing system B
+/// (it lands in the live buffer while the old buffer is being replayed).  Nothing may be stranded: inside a tree the new
+/// commands and the kept old ones are all still postponed afterwards; at the root every one of them is discarded through
+/// its own setup+cleanup.
+fn step_replay_nested_postpones(root: bool)
+{
+    let mut world = mk_world();
+    world.m_apply_table::<(SystemCommand,)>();
+    world.m_drop_table::<bevy::model::cell::LeakAll>();
+    let a = logger(&mut world, 1);
+    let b = logger(&mut world, 2);
+    let b_taken = world.get_mut::<SystemCommandStorage>(*b).unwrap().take().unwrap();
+    assert!(b.generation() == 1);
+    unsafe { NESTED_POSTPONES_FOR = 0x5EED_0D01 + b.index() as usize; }
+    let idx: usize = if root { 0 } else { let d: usize = kani::any(); kani::assume(d >= 1 && d < usize::MAX - 8); d };
+    set_counter(&mut world, idx);
+    let is_a: [bool; 2] = kani::any();
+    buffer_push(&mut world, if is_a[0] { a } else { b }, 2);
+    buffer_push(&mut world, if is_a[1] { a } else { b }, 3);
+
+    top_runner(&mut world, a, setup_k(1, a), cleanup_k(1));
+
+    let replays = (is_a[0] as usize) + (is_a[1] as usize);
+    let kept = 2 - replays;
+    assert!(nested_n() == replays, "C02: exactly the finished system's postponed commands are replayed");
+    if root
+    {
+        // discards: every leftover - the commands newly postponed during the replays and the kept old ones - goes through setup+cleanup
+        let log = world.resource::<Log>();
+        assert!(log.len == 3 + replays + 2 * (replays + kept), "C02/C11/C05: every postponed command - old or sent during a replay - is either replayed or discarded through its setup+cleanup; none is stranded");
+        assert!(buffered_len(&world) == 0 && counter(&world) == 0 && crate::react::command_queue::verif_h::no_cached_commands(world.resource::<CobwebCommandQueue<BufferedSyscommand>>()),
+            "C11: nothing is left waiting anywhere, not even in a cached buffer");
+    }
+    else
+    {
+        assert!(buffered_len(&world) == kept + replays, "C02: commands postponed during a replay and the kept older ones all stay postponed; none is stranded");
+        assert!(crate::react::command_queue::verif_h::no_cached_commands(world.resource::<CobwebCommandQueue<BufferedSyscommand>>()), "C11/C02: cached buffers hold no commands");
+    }
+    kani::cover!(replays == 2, "both replayed, two new commands postponed"); kani::cover!(replays == 1 && kept == 1, "one replayed, one kept, one new");
+    std::mem::forget(b_taken); std::mem::forget(world);
+}
+runner_top_harness!(runner_step_replay_nested_postpones_root, 5, { step_replay_nested_postpones(true) });
+runner_top_harness!(runner_step_replay_nested_postpones_nested, 5, { step_replay_nested_postpones(false) });
+
+//-------------------------------------------------------------------------------------------------------------------
+// the runner's pre-run poll can itself schedule a reaction for the very system that is about to run
+//-------------------------------------------------------------------------------------------------------------------
+pub static mut POLL_TARGET: (u32, usize) = (0x5EED, 0x5EED_0E00);      // (entity index, polls done so far + base)
+/// stands in for `schedule_removal_and_despawn_reactors`: the FIRST poll finds one pending (despawn / removal) reaction
+/// for the system at `POLL_TARGET` and applies it, as the real poll does by flushing: a nested runner call
+pub fn stub_poll_schedules_reaction(world: &mut World)
+{
+    unsafe
+    {
+        POLL_TARGET.1 += 1;
+        if POLL_TARGET.1 == 0x5EED_0E01
+        {
+            let target = SystemCommand(Entity::m_new(POLL_TARGET.0, 1));
+            syscommand_runner(world, target, setup_k(2, target), cleanup_k(2));
+        }
+    }
+}
+
+/// S6 (C02/C08): a reaction that the runner's own poll schedules for the system that is about to run is not lost: it runs
+/// that system (exactly once), and the command that was being applied runs it too.
+#[kani::proof]
+#[kani::stub(core::any::TypeId::of, crate::vh::stub_typeid_of)]
+#[kani::stub(<core::any::TypeId as crate::vh::PEq>::eq, crate::vh::stub_typeid_eq)]
+#[kani::stub(crate::ecs::auto_despawn::garbage_collect_entities, stub_noop)]
+#[kani::stub(crate::react::utils::schedule_removal_and_despawn_reactors, stub_poll_schedules_reaction)]
+#[kani::stub(bevy::world::Commands::queue, bevy::world::Commands::m_queue_record)]
+#[kani::stub(<bevy::world::EntityWorldMut as bevy::hierarchy::DespawnRecursiveExt>::despawn_recursive, stub_despawn_recursive_flag)]
+#[kani::unwind(4)]
+fn runner_poll_reaction_for_same_system()
+{
+    let mut world = mk_world();
+    world.m_apply_table::<(SystemCommand,)>();
+    world.m_drop_table::<bevy::model::cell::LeakAll>();
+    let a = logger(&mut world, 1);
+    assert!(a.generation() == 1);
+    unsafe { POLL_TARGET.0 = a.index(); }
+    syscommand_runner(&mut world, a, setup_k(1, a), cleanup_k(1));
+    let log = world.resource::<Log>();
+    assert!(log.count(1) == 2, "C02/C08: the polled reaction and the applied command each run the (idle, live) system exactly once - neither is dropped");
+    assert!(log.count(12) == 1 && log.count(22) == 1 && log.count(11) == 1 && log.count(21) == 1, "C05: each with its own setup and cleanup, once");
+    assert!(has_callback(&world, a) && counter(&world) == 0 && buffered_len(&world) == 0, "C11: quiescent afterwards");
+    assert!(!lost_system_path_taken());
+    kani::cover!(true, "end of harness reached");
+    std::mem::forget(world);
+}
